@@ -187,6 +187,12 @@ def cases(tier, seed):
             for refuse in (0, 1, 3):
                 yield {"gen": gen, "seed": rnd.randrange(1 << 30), "extras": {}, "seg": 0,
                        "silent": None, "lat": lat, "refuse": refuse, "again": True}
+    # the application's retry loop around init()
+    for gen in (4, 5):
+        for step, pause, calls in ((0.9, 0.0, 4), (0.9, 0.5, 4), (1.5, 0.25, 5), (0.0, 0.0, 2),
+                                   (0.1, 1.0, 3)):
+            yield {"k": "retry", "gen": gen, "seed": rnd.randrange(1 << 30), "step": step,
+                   "pause": pause, "calls": calls, "again_after_true": step < 0.5}
     # zero zones explicitly
     for gen in (4, 5):
         for i in range(6):
@@ -230,7 +236,71 @@ def segmenter(mode, rnd):
     return seg
 
 
+def run_retry(case):
+    """The application's retry loop: init() is called again whenever it returned False, against
+    a console that answers every request - but not fast enough for one call (or only after an
+    outage)."""
+    gen = case["gen"]
+    rnd = random.Random(case["seed"])
+    inst, meta = installation(gen, rnd, None)
+    viol, obs, out = [], {}, {}
+
+    async def main(loop, net, log):
+        knobs = C.Knobs(latency=case["step"])
+        w = AW.ModelWorld(gen, loop, net, log, inst, knobs)
+        rets = []
+        for attempt in range(case["calls"]):
+            r = await H.probe(log, "init", w.at.init())
+            rets.append(r)
+            if r is True and not case.get("again_after_true"):
+                break
+            await asyncio.sleep(case["pause"])
+        await asyncio.sleep(6 * case["step"] + 1.0)
+        await quiesce(loop)
+        out["rets"] = rets
+        out["initialised"] = w.at.initialised
+        out["snap"] = H.snapshot(w.at)
+        # still alive: a status push must show
+        w.console.knobs.latency = 0.0
+        c = w.conn()
+        if c is not None:
+            from . import c10
+            w.feed()
+            o2 = {}
+            raw = c10.make_frame(gen, rnd, w, None, o2, kinds=["zone" if inst["zones"] else "ac"])
+            await w.inject(raw)
+            w.feed()
+            out["diff_after_push"] = RMdiff(w)
+        out["conn"] = c is not None
+        await w.at.shutdown()
+
+    def RMdiff(w):
+        from .. import refmodel as RM
+        return RM.diff(w.model.expected(), H.snapshot(w.at))[:3]
+
+    _, log, st = H.run(main)
+    info = {k: case[k] for k in ("gen", "step", "pause", "calls")}
+    if st != "ok":
+        viol.append({"mechanism": "init-retry-scenario-hang", "detail": dict(info, status=st)})
+    elif any(isinstance(r, Exception) for r in out["rets"]):
+        viol.append({"mechanism": "init-raises", "detail": dict(info, rets=repr(out["rets"]))})
+    elif not out["initialised"] or out["rets"][-1] is not True:
+        viol.append({"mechanism": "init-retried-against-answering-console-never-succeeds",
+                     "detail": dict(info, rets=repr(out["rets"]),
+                                    initialised=out["initialised"])})
+    elif out.get("diff_after_push") or not out["conn"]:
+        viol.append({"mechanism": "object-no-longer-follows-the-console-after-repeated-init",
+                     "detail": dict(info, rets=repr(out["rets"]),
+                                    diff=out.get("diff_after_push"))})
+    else:
+        obs["init_retry_loops_judged"] = 1
+    return {"violations": viol, "evals": 1, "decided": 0 if viol else 1, "distinct": 1,
+            "obs": obs, "sample": info}
+
+
 def run_case(case):
+    if case.get("k") == "retry":
+        return run_retry(case)
     gen = case["gen"]
     rnd = random.Random(case["seed"])
     inst, meta = installation(gen, rnd, case.get("zones"))
